@@ -45,10 +45,12 @@ KINDS = {
     "pv": ("Vacuum", "P"), "ps": ("Squeezed", "P"), "lc": ("LossChannel", "L"),
     "g2": ("BSgate", None), "g3": ("Interferometer", None), "ga": ("Rgate", None),
     "mx": ("MeasureHomodyne", None), "mxs": ("MeasureHomodyne", None), "mhd": ("MeasureHeterodyne", None), "mf": ("MeasureFock", None),
+    "mfs": ("MeasureFock", None), "mfd": ("MeasureFock", None),  # post-selected on 1 photon per mode / 2 dark counts per mode
     "gp": ("Rgate", None), "gd": ("Dgate", None), "g2p": ("BSgate", None),
     "new": ("_New_modes", None), "del": ("_Delete", None), "nd": ("Rgate", None),
 }
-MEASURE = ("mx", "mxs", "mhd", "mf")
+MF = ("mf", "mfs", "mfd")
+MEASURE = ("mx", "mxs", "mhd") + MF
 
 
 def dep_list(dep):
@@ -114,6 +116,10 @@ def build(n, cmds):
                     ops.MeasureHD | regs[modes[0]]
                 elif kind == "mf":
                     ops.MeasureFock() | tuple(regs[m] for m in modes)
+                elif kind == "mfs":
+                    ops.MeasureFock(select=[1] * len(modes)) | tuple(regs[m] for m in modes)
+                elif kind == "mfd":
+                    ops.MeasureFock(dark_counts=[2] * len(modes)) | tuple(regs[m] for m in modes)
                 elif kind == "gp":
                     ops.Rgate(par_expr(regs, deps)) | regs[modes[0]]
                 elif kind == "gd":
@@ -224,12 +230,12 @@ def leading_part(cmds, marks):
 
 def gbs_oracle(cmds):
     """None if the circuit is a GBS circuit (every Fock measurement can be moved to the end, no mode is measured twice), else why not."""
-    mf = [i for i, c in enumerate(cmds) if c[0] == "mf"]
+    mf = [i for i, c in enumerate(cmds) if c[0] in MF]
     if not mf:
         return "no-fock-measurement"
     desc = descendants(cmds)
     for i in mf:
-        if any(cmds[j][0] != "mf" for j in desc[i]):
+        if any(cmds[j][0] not in MF for j in desc[i]):
             return "operation-after-measurement"
     seen = set()
     for i in mf:
@@ -358,7 +364,7 @@ def rich_cmds(rng, n, focus, length, palette="utils", singles=("g1", "g1i", "s1"
                 measured.append(m)
         elif kind == "mf":
             ms = rng.sample(live, rng.randint(1, min(4, len(live))))
-            out.append(("mf", ms, None))
+            out.append((rng.choice(("mf", "mf", "mf", "mfs", "mfd")), ms, None))
             measured += [m for m in ms if m not in measured]
         elif kind == "gp":
             ds = rng.sample(measured, rng.randint(1, min(3, len(measured))))
@@ -388,6 +394,59 @@ def rich_cmds(rng, n, focus, length, palette="utils", singles=("g1", "g1i", "s1"
             out.append(("del", ms, None))
         elif kind == "nd":
             out.append(("nd", [], None))
+    return out
+
+
+MODE_SETS = [(3, (0, 1, 2)), (12, (2, 10, 11)), (13, (1, 12, 9))]
+
+
+def lin_templates():
+    """Deterministic sweep: small circuits around measured parameters, deletions and New-created modes, on every assignment of three
+    roles to the modes of MODE_SETS (one-digit and two-digit register indices)."""
+    out = []
+    for n, S in MODE_SETS:
+        for a, b, c in itertools.permutations(S):
+            N = n  # index of the first New-created mode
+            out += [
+                (n, [("mx", [a], None), ("gp", [b], a), ("del", [a], None), ("g1", [b], None)]),
+                (n, [("mx", [a], None), ("mx", [b], None), ("gp", [c], [a, b]), ("g1", [a], None), ("g1", [b], None), ("del", [a], None)]),
+                (n, [("mx", [a], None), ("mx", [b], None), ("gd", [c], [a, b]), ("mx", [a], None), ("s1", [c], None)]),
+                (n, [("mf", [a, b], None), ("g2p", [b, c], [a]), ("g1", [a], None)]),
+                (n, [("g1", [a], None), ("new", [N], None), ("g1", [N], None), ("g2", [N, a], None), ("mx", [N], None), ("gp", [b], N), ("del", [N], None), ("g1", [b], None)]),
+                (n, [("mx", [a], None), ("gp", [a], a), ("del", [a], None), ("g1", [b], None)]),
+                (n, [("mx", [a], None), ("gp", [b], a), ("gp", [c], a), ("mx", [a], None), ("g1", [b], None)]),
+                (n, [("mf", [a, b, c], None), ("g1", [c], None), ("g1", [b], None), ("g1", [a], None)]),
+                (n, [("g3", [a, b, c], None), ("mhd", [b], None), ("ga", [c], [b]), ("del", [b], None), ("g1", [c], None)]),
+                (n, [("new", [N, N + 1], None), ("g2", [N + 1, a], None), ("del", [N, b], None), ("mx", [N + 1], None), ("g2p", [a, c], [N + 1]), ("nd", [], None)]),
+                (n, [("mx", [a], None), ("gp", [b], a), ("g1", [c], None), ("gp", [c], a), ("del", [a], None), ("del", [b], None)]),
+            ]
+    return out
+
+
+def gbs_templates():
+    """Deterministic sweep of small GBS circuits (legal and illegal ones) on the same mode assignments."""
+    out = []
+    for n, S in MODE_SETS:
+        for a, b, c in itertools.permutations(S):
+            N = n
+            out += [
+                (n, [("ps", [a], None), ("g2", [a, b], None), ("mf", [a], None), ("mf", [b], None)]),
+                (n, [("mf", [a], None), ("g1", [b], None), ("mf", [b], None)]),
+                (n, [("mf", [a], None), ("gp", [b], a), ("mf", [b], None)]),
+                (n, [("mf", [a], None), ("gp", [c], a), ("mf", [b], None)]),
+                (n, [("mf", [a, b], None), ("mf", [b, c], None)]),
+                (n, [("mf", [a], None), ("mf", [c], None), ("mf", [b], None)]),
+                (n, [("g2", [a, b], None), ("mf", [c, a], None)]),
+                (n, [("mx", [a], None), ("gp", [b], a), ("mf", [b, c], None)]),
+                (n, [("mf", [a], None), ("del", [a], None), ("mf", [b], None)]),
+                (n, [("del", [a], None), ("g2", [b, c], None), ("mf", [c, b], None)]),
+                (n, [("del", [a], None), ("mf", [c], None), ("mf", [b], None)]),
+                (n, [("new", [N], None), ("g2", [N, a], None), ("mf", [N, a], None), ("mf", [b], None)]),
+                (n, [("mf", [a], None), ("g1", [a], None)]),
+                (n, [("mf", [a], None), ("mx", [b], None), ("mf", [c], None)]),
+                (n, [("mf", [a], None), ("mx", [b], None), ("gp", [c], b), ("mf", [c], None)]),
+                (n, [("mf", [a, b], None), ("mf", [a], None)]),
+            ]
     return out
 
 
@@ -430,7 +489,7 @@ PREDICATES = ["mf", "rand", "g2", "measure", "param", "all", "none", "one"]
 
 def make_marks(rng, cmds, mode):
     if mode == "mf":
-        return [c[0] == "mf" for c in cmds]
+        return [c[0] in MF for c in cmds]
     if mode == "rand":
         return [rng.random() < 0.3 for _ in cmds]
     if mode == "g2":
@@ -528,9 +587,10 @@ def lin_cases(ctx):
     for _ in range(ctx.budget(250, 2500)):
         n = rng.randint(1, 5)
         cases.append((n, random_cmds(rng, n, rng.randint(1, 14)), "rand"))
-    for _ in range(ctx.budget(350, 3500)):
+    for _ in range(ctx.budget(450, 3500)):
         n, focus = pick_register(rng)
         cases.append((n, rich_cmds(rng, n, focus, rng.randint(1, 14)), "rich"))
+    cases += [(n, cmds, "tmpl") for n, cmds in lin_templates()]
     ctx.extra["exhaustive_cases_enumerated"] = n_exh
     return cases
 
@@ -787,6 +847,24 @@ def gbs_rich(rng):
     return n, cmds
 
 
+def fock_options(c):
+    """mode -> (post-selected value or None, dark counts) of a Fock measurement command (None for any other command)."""
+    if not isinstance(c.op, ops.MeasureFock):
+        return None
+    sel = list(c.op.select) if c.op.select is not None else [None] * len(c.reg)
+    dark = list(c.op.dark_counts) if c.op.dark_counts is not None else [0] * len(c.reg)
+    return {r.ind: (s, d or 0) for r, s, d in zip(c.reg, sel, dark)}
+
+
+def spec_fock_options(cmds):
+    o = {}
+    for c in cmds:
+        if c[0] in MF:
+            for m in c[1]:
+                o[m] = (1 if c[0] == "mfs" else None, 2 if c[0] == "mfd" else 0)
+    return o
+
+
 def run_gbs(n, cmds, optimize=False):
     prog = build(n, cmds)
     if prog is None:
@@ -803,7 +881,7 @@ def run_gbs(n, cmds, optimize=False):
         raise InputModified("Program.compile changed the circuit of the source program")
     res = []
     for c in out.circuit:
-        res.append((c.op.__class__.__name__, [r.ind for r in c.reg], idx.get(id(c))))
+        res.append((c.op.__class__.__name__, [r.ind for r in c.reg], idx.get(id(c)), fock_options(c)))
     # compiling the compiled program once more must give the same circuit again (one final measurement, same Gaussian part)
     again = out.compile(compiler="gbs")
     res2 = [(c.op.__class__.__name__, [r.ind for r in c.reg]) for c in again.circuit]
@@ -819,7 +897,7 @@ def judge_gbs_output(n, cmds, outc, ms):
     others = [c for c in outc if c[0] != "MeasureFock"]
     if len(meas) != 1 or outc[-1][0] != "MeasureFock" or meas[0][1] != ms:
         return "gbs:measurement-collection", "compiled circuit measures %s, expected one final MeasureFock on %s" % ([m[:2] for m in meas], ms)
-    src = [i for i, c in enumerate(cmds) if c[0] != "mf"]
+    src = [i for i, c in enumerate(cmds) if c[0] not in MF]
     exp = [(KINDS[cmds[i][0]][0], list(cmds[i][1])) for i in src]
     if sorted(map(repr, [c[:2] for c in others])) != sorted(map(repr, exp)):
         return "gbs:commands-changed", "compiled Gaussian part %s differs from the source's %s" % ([c[:2] for c in others], exp)
@@ -830,6 +908,10 @@ def judge_gbs_output(n, cmds, outc, ms):
     for w in sorted(py_wires(cmds)):
         if [i for i in got if w in deps[i]] != [i for i in src if w in deps[i]]:
             return "gbs:wire-order", "order of the commands depending on mode %d changed: %s" % (w, got)
+    # last, so that this recorded defect never hides another failure on the same input
+    if meas[0][3] != spec_fock_options(cmds):
+        return ("gbs:measurement-options-dropped", "the collected Fock measurement has the options (post-selected value, dark counts) %s per mode, the measurements "
+                "of the source %s: the compiled program does not perform the same measurement" % (meas[0][3], spec_fock_options(cmds)))
     return None
 
 
@@ -837,12 +919,22 @@ def search_gbs(ctx):
     """GBS.compile on the implementation vs the model's collection; plus end-to-end checks."""
     rng = ctx.rng
     cases = []
-    for k in range(ctx.budget(320, 3200)):
-        n, cmds = gbs_case(rng) if k % 2 == 0 else gbs_rich(rng)
-        fam = "gbs" if k % 2 == 0 else "gbsrich"
-        if rng.random() < 0.3:
+    tmpl = gbs_templates()
+    for k in range(len(tmpl) + ctx.budget(320, 3200)):
+        if k < len(tmpl):
+            n, cmds = tmpl[k]
+            fam = "gbstmpl"
+        else:
+            n, cmds = gbs_case(rng) if k % 2 == 0 else gbs_rich(rng)
+            fam = "gbs" if k % 2 == 0 else "gbsrich"
+        if k >= len(tmpl) and rng.random() < 0.3:
             n, cmds = remap_case(rng, n, cmds)
             fam += "-ge10"
+        if k >= len(tmpl) and rng.random() < 0.15:
+            # post-selected Fock measurements / dark counts (never both in one program: they cannot be combined at all)
+            k2 = rng.choice(("mfs", "mfd"))
+            cmds = [(k2 if c[0] == "mf" and rng.random() < 0.6 else c[0], c[1], c[2]) for c in cmds]
+            fam += "-opts"
         cmds = [tuple(c) for c in cmds]
         opt = merge_free(cmds) and rng.random() < 0.3
         try:
@@ -865,7 +957,7 @@ def search_gbs(ctx):
         circ = prog.circuit
         idx = {id(c): i for i, c in enumerate(circ)}
         A, B, C = pu.group_operations(circ, lambda op: isinstance(op, ops.MeasureFock))
-        marks = [c[0] == "mf" for c in cmds]
+        marks = [c[0] in MF for c in cmds]
         ia, ib, ic = ([idx[id(c)] for c in X] for X in (A, B, C))
         rows.append("res (gbs_collect %s %s %s)" % (enc_list(ia, cmds, marks), enc_list(ib, cmds, marks), enc_list(ic, cmds, marks)))
         meta.append((ia, ib, ic))
@@ -876,14 +968,16 @@ def search_gbs(ctx):
         ctx.obligation("correspondence:gbs", False, raw)
         return
     for (n, cmds, r, opt, fam), (err, ms), (ia, ib, ic) in zip(cases, vals[0], meta):
-        nmf = sum(1 for c in cmds if c[0] == "mf")
+        nmf = sum(1 for c in cmds if c[0] in MF)
         ctx.case({"n": n, "cmds": cmds, "impl": r[0]}, nontrivial=nmf >= 2 or (nmf == 1 and r[0] == "ok" and len(cmds) > 2), bucket="%s-%s" % (fam, r[0]))
         data = {"check": "gbs", "n": n, "cmds": cmds, "optimize": opt}
         why = gbs_oracle(cmds)
         if r[0] == "error":
-            if err == 0:
+            if any(c[0] in ("mfs", "mfd") for c in cmds):
+                pass  # refusing to combine measurements with options is legitimate
+            elif err == 0:
                 ctx.counterexample("gbs:rejects-valid", "GBS compile raised %r on a circuit the model accepts" % r[1], data)
-            elif why is None:
+            elif why is None and not any(c[0] in ("mfs", "mfd") for c in cmds):
                 ctx.counterexample("gbs:rejects-valid:grouping", "GBS compile raised %r although every Fock measurement can be moved to the end of the circuit and no mode "
                                    "is measured twice (group_operations returned A=%s B=%s C=%s)" % (r[1], ia, ib, ic), data)
             continue
@@ -998,7 +1092,7 @@ def run_relinearise(site, n, cmds, compiler=None, optimize=False):
 def search_prog(ctx):
     rng = ctx.rng
     jobs = []  # (signature prefix, data, cmds, got) validated in Coq as well
-    for k in range(ctx.budget(260, 2600)):
+    for k in range(ctx.budget(340, 2600)):
         site = "optimize" if k % 2 == 0 else "compile"
         n, cmds = prog_case(rng, "prog" if site == "optimize" else "compile")
         compiler, opt = None, False
@@ -1177,10 +1271,10 @@ def replay(ctx, data):
             return False
         why = gbs_oracle(cmds)
         if r[0] == "error":
-            return why is None
+            return why is None and not any(c[0] in ("mfs", "mfd") for c in cmds)
         if why is not None:
             return True
-        ms = sorted(m for c in cmds if c[0] == "mf" for m in c[1])
+        ms = sorted(m for c in cmds if c[0] in MF for m in c[1])
         return judge_gbs_output(n, cmds, r[1], ms) is not None
     if kind in ("optimize", "compile"):
         try:
